@@ -139,7 +139,11 @@ def step (st? : Option St) (t : List String) : Option St × String :=
     match pNat val, pNat h, pNat r, parseType ty, parseOptBlk b, pNat peer, parseOk ok with
     | some val, some h, some r, some ty, some b, some peer, some ok =>
       if peer = 0 then (some st, "err:badop") else
-      runInput st (.peer (.vote ⟨val, h, r, ty, b⟩) peer ok)
+      -- nobody else holds the node's key: a vote carrying the node's index verifies only if it
+      -- is an echo of a vote the node really signed
+      let v : Vote := ⟨val, h, r, ty, b⟩
+      let ok := ok && (val != st.k.me || st.s.sent.contains v)
+      runInput st (.peer (.vote v) peer ok)
     | _, _, _, _, _, _, _ => (some st, "err:badop")
   | some st, ["maj23", peer, h, r, ty, b] =>
     match pNat peer, pNat h, pNat r, parseType ty, parseOptBlk b with
